@@ -169,6 +169,13 @@ def classify_cause(ctx, body, op, depth=0):
                     r = r.replace("::{closure#0}", "")
                     if not c.get("resolved"):
                         r = strip_generics(c.get("self_ty") or "?")
+                    # what is awaited is named after the crate function that made the future, whether that is an `async fn`
+                    # or a plain function returning `impl Future`
+                    fo = body.origin(d[2]["ops"][0]) if d[2]["ops"] else ("?",)
+                    if fo[0] == "call" and (fo[2].get("callee") or {}).get("krate") not in ("core", "std", "alloc", "futures", "futures_util", "futures_core", "futures_io", None):
+                        made_by = strip_generics(callee_name(fo[2]) or "")
+                        if made_by and not made_by.endswith(r.split("::")[-1]):
+                            r = made_by
                     return {"kind": "await", "of": r}
                 if nm.endswith("Try::branch"):
                     # the Ok value of an earlier `?`
@@ -877,14 +884,36 @@ def first_response(ctx):
 
 # ------------------------------------------------------------------------------------ THRESH
 
+def _thresh_units(ctx):
+    """The client code in which reason codes are judged, each piece once and in flattened form (a shared helper such as
+    `accept_ack(packet)` or a trait method `reason.is_failure()` is looked at inside its caller, where the reason is a
+    field of a known packet)."""
+    cache = ctx.__dict__.get("_thresh_units")
+    if cache is not None:
+        return cache
+    flats = {}
+    for role, body in ctx.client_units():
+        if body.fn["file"].endswith("error.rs"):
+            continue
+        if body.fn.get("flat"):
+            flats[body.path] = body
+            continue
+        try:
+            flats[body.path] = ctx.flat(body)
+        except AnchorLost:
+            flats[body.path] = body
+    covered = set()
+    for p_, b_ in flats.items():
+        covered |= (set(b_.fn.get("inlined", [])) - {p_})
+    units = [b_ for p_, b_ in sorted(flats.items()) if p_ not in covered]
+    ctx.__dict__["_thresh_units"] = units
+    return units
+
+
 def thresh_sites(ctx):
     """Comparisons of a `reason` with a constant inside client::rsp TryFrom impls and ContextHandle closures."""
     sites = []
-    for f in ctx.facts.fns:
-        p = f["path"]
-        if not f["file"].startswith("src/client/") or f["file"].endswith("error.rs"):
-            continue
-        body = ctx.world.body(p)
+    for body in _thresh_units(ctx):
         for b in sorted(body.reach):
             c = Cond(body, b)
             if c.kind != "cmp":
@@ -911,22 +940,32 @@ def thresh(ctx):
         stops = {a_["poll_bb"] for a_ in body.awaits()} | {x for x in body.reach if body.term(x)["k"] == "yield"}
 
         def side_has_err(s_):
-            # what the decision leads to directly: up to the next suspension point (later checks of the same operation,
-            # e.g. the PUBCOMP check after a good PUBREC, are decisions of their own)
-            reg = body.reachable_from(s_, avoid=[x for x in body.succ(b) if x != s_] + list(stops))
+            # what the decision leads to directly: the first Ok(..) / Err(..) built on each path from this side, up to the
+            # next suspension point (what follows -- later `?`s of the caller an inlined conversion sits in, the PUBCOMP
+            # check after a good PUBREC -- are decisions of their own)
             vs = set()
-            for x in reg:
+            seen_, work_ = set(), [s_]
+            other_ = [x for x in body.succ(b) if x != s_]
+            while work_:
+                x = work_.pop()
+                if x in seen_ or x in stops or x in other_ or x not in body.reach:
+                    continue
+                seen_.add(x)
+                built = False
                 for st in body.blocks[x]["stmts"]:
-                    if st["k"] == "assign":
-                        for a in body.rv_atoms(st["rv"]):
-                            if a[0] == "variant" and a[2] in ("Err", "Ok"):
-                                vs.add(a[2])
+                    if st["k"] == "assign" and st["rv"]["k"] == "agg" and st["rv"].get("variant") in ("Ok", "Err") and "Result" in (st["rv"].get("adt") or ""):
+                        vs.add(st["rv"]["variant"])
+                        built = True
                 t = body.term(x)
                 if t["k"] == "call":
                     nm = callee_resolved(t) or ""
                     m = re.search(r"(\w+Error) as std::convert::From<", nm) or re.search(r"<client::error::(\w+Error)", nm)
                     if m:
                         vs.add("errtype:" + m.group(1))
+                if not built and not (t["k"] == "switch" and len(set(body.succ(x))) > 1):
+                    # ... and up to the next decision: what a later test (a builder that may refuse, the next `?`) leads to is
+                    # that test's outcome, not this one's
+                    work_.extend(body.succ(x))
             return vs
         ts, fs = side_has_err(c.true_succ), side_has_err(c.false_succ)
         # normalise to "fail side is reason >= thr"
@@ -947,10 +986,7 @@ def thresh(ctx):
         if "send_quota" not in str(body.fn["path"]) and (ts or fs) and ("Err" in ts or "Err" in fs):
             out.append(Inst("THRESH", "%s:err-side" % key, err_on_fail, body.site(b), "Err on the %s side (error types %s)" % ("failing" if err_on_fail else "wrong", et), "Err exactly when reason >= 0x80"))
     # the same decision written as a `match` on the reason enum: per variant, Err exactly for the discriminants >= 0x80
-    for f in ctx.facts.fns:
-        if not f["file"].startswith("src/client/") or f["file"].endswith("error.rs"):
-            continue
-        body = ctx.world.body(f["path"])
+    for body in _thresh_units(ctx):
         for b in sorted(body.reach):
             si = body.switch_info(b)
             if not si or si["kind"] != "discr" or not re.search(r"::(Puback|Pubrec|Pubrel|Pubcomp|Suback|Unsuback|Connect|Auth)Reason$", si.get("adt") or ""):
@@ -969,14 +1005,22 @@ def thresh(ctx):
                 tgt = next((x for val, x in t["targets"] if val == d), t["otherwise"])
                 if tgt is None:
                     continue
-                reg = body.reachable_from(tgt, avoid=[x for x in succs if x != tgt] + list(stops))
+                # the first Ok(..) / Err(..) built on the way from this arm, up to the next decision or suspension point
                 vs = set()
-                for x in reg:
+                seen_, work_ = set(), [tgt]
+                while work_:
+                    x = work_.pop()
+                    if x in seen_ or x in stops or (x in succs and x != tgt) or x not in body.reach:
+                        continue
+                    seen_.add(x)
+                    built = False
                     for st in body.blocks[x]["stmts"]:
-                        if st["k"] == "assign":
-                            for a in body.rv_atoms(st["rv"]):
-                                if a[0] == "variant" and a[2] in ("Err", "Ok") and "Result" in (a[1] or "Result"):
-                                    vs.add(a[2])
+                        if st["k"] == "assign" and st["rv"]["k"] == "agg" and st["rv"].get("variant") in ("Ok", "Err") and "Result" in (st["rv"].get("adt") or ""):
+                            vs.add(st["rv"]["variant"])
+                            built = True
+                    tx_ = body.term(x)
+                    if not built and not (tx_["k"] == "switch" and len(set(body.succ(x))) > 1):
+                        work_.extend(body.succ(x))
                 if not vs:
                     continue
                 n_dec += 1
